@@ -65,6 +65,12 @@ fitness_t sum_of_errors_evaluator<T, ERRF, DAT>::sum_of_errors_impl(
     average_error += (err - average_error) / ++n;
   }
 
+  // An error too large to be represented (`inf`) turns the running average
+  // into `inf` and then into `NaN` (`inf - inf`). The fitness must stay well
+  // defined: a huge error gives the worst finite fitness.
+  if (!std::isfinite(average_error))
+    average_error = std::numeric_limits<double>::max();
+
   // Note that we take the average error: this way fast() and operator()
   // outputs can be compared.
   return {static_cast<fitness_t::value_type>(-average_error)};
